@@ -223,6 +223,14 @@ def mutator_signatures(facts):
                 ok = False
         if ok and sig:
             out[path] = (fn.self_ty, sig)
+    # setters of the pinned tree that no longer exist (written into their callers by hand) keep their recorded signature, so that the
+    # stores are still recognised as that setter (specs/mutators.json, tools/gen_guards.py)
+    import json, os
+    rp = os.path.join(os.path.dirname(os.path.dirname(os.path.abspath(__file__))), "specs", "mutators.json")
+    if os.path.exists(rp) and not getattr(facts, "_recording", False):
+        for path, (adt, sig) in json.load(open(rp)).get(facts.crate, {}).items():
+            if path not in out and facts.fn(path) is None:
+                out[path] = (adt, {f: tuple(v) for f, v in sig.items()})
     facts._mut_sigs = out
     return out
 
